@@ -71,6 +71,10 @@ fn main() {
         panic::set_hook(Box::new(|_| {}));
         let mut diverged = 0u64;
         for t in 0..trials {
+            // a trial = up to 4 passes with the same random stream; shims may leave hints between
+            // passes (the K-round atomics record the end-of-round values their guesses must match)
+            prometheus::verif_rt::hints_clear();
+            for _pass in 0..4 {
             prometheus::verif_rt::start_search(seed.wrapping_mul(0x9E3779B97F4A7C15).wrapping_add(t.wrapping_mul(0xD1B54A32D192ED03)));
             let r = panic::catch_unwind(f);
             if let Err(e) = r {
@@ -80,13 +84,15 @@ fn main() {
                     continue;
                 }
                 if !want.is_empty() && !msg.contains(&want) {
-                    continue;
+                    break;
                 }
                 let tape = prometheus::verif_rt::get_tape();
                 let js: Vec<String> = tape.iter().map(|v| format!("[{}]", v.iter().map(|b| b.to_string()).collect::<Vec<_>>().join(","))).collect();
                 std::fs::write(&args[5], format!("[{}]", js.join(","))).unwrap();
-                println!("SEARCH-RESULT: witness found at trial {} ({} trials left the assumed region): {}", t, diverged, msg);
+                println!("SEARCH-RESULT: witness found at trial {} ({} runs left the assumed region): {}", t, diverged, msg);
                 std::process::exit(1);
+            }
+            break;
             }
         }
         println!("SEARCH-RESULT: no witness in {} trials ({} left the assumed region)", trials, diverged);
